@@ -122,7 +122,7 @@ class C01(Prop):
                     g.op_read(b)
             for be in storelib.BACKENDS:
                 out.append(("ids-history", {"k": "hist", "backend": be, "ops": g.ops}))
-        for _ in range(ctx.pick(150, 3000)):
+        for _ in range(ctx.pick(300, 4000)):
             tr = self._trace(rng)
             for be in storelib.BACKENDS:
                 out.append(("ownership", {"k": "own", "backend": be, "trace": tr}))
@@ -139,9 +139,12 @@ class C01(Prop):
                 tr.append(["new", [None, T0 + rng.randrange(5) * 10**6, rng.choice([0, 10**6, 1500]), rng.choice(DATAS[1:])]])
                 nobj += 1
             elif r < 0.35:
-                tr.append(["insert", rng.randrange(nobj)])
+                src = rng.randrange(nobj)
+                tr.append(["insert", src])
                 nobj += 1  # the returned event is a client-held object too
                 wrote = True
+                if rng.random() < 0.5:  # change the passed-in or the returned event right after the call
+                    tr.append(["mut", rng.choice([src, nobj - 1]), rng.choice(["data-top", "data-nested", "data-nested", "data-assign", "ts", "id"])])
             elif r < 0.42:
                 tr.append(["bulk", [rng.randrange(nobj) for _ in range(rng.randint(1, 3))]])
                 wrote = True
@@ -150,9 +153,13 @@ class C01(Prop):
             elif r < 0.70 and wrote:
                 tr.append(["get"])
                 nobj += 1  # first returned event (if any) becomes addressable
+                if rng.random() < 0.6:  # ... and is what a client is most likely to change
+                    tr.append(["mut", nobj - 1, rng.choice(["data-top", "data-nested", "data-nested", "data-clear", "ts", "dur", "id"])])
             elif r < 0.75 and wrote:
                 tr.append(["getbyid"])
                 nobj += 1
+                if rng.random() < 0.6:
+                    tr.append(["mut", nobj - 1, rng.choice(["data-top", "data-nested", "data-nested", "data-clear", "ts", "dur", "id"])])
             elif r < 0.82:
                 tr.append([rng.choice(["meta", "buckets"])])
                 nh += 1
